@@ -2,6 +2,7 @@ package harness
 
 import (
 	"fmt"
+	"regexp"
 	"sort"
 	"strings"
 
@@ -43,6 +44,11 @@ func parseCtx(s string) ctxFields {
 	f.prevdone = grab("prevdone=", " ")
 	return f
 }
+
+var superRe = regexp.MustCompile(`"is_superuser"="[^"]*";`)
+
+// normSuper hides the value of is_superuser (named by the property, value not fixed).
+func normSuper(s string) string { return superRe.ReplaceAllString(s, `"is_superuser"=*;`) }
 
 func renderParams(m map[string]string) string {
 	keys := make([]string, 0, len(m))
@@ -114,7 +120,7 @@ func lifecycleOracle(prop string, c *Case, conn int, cs *connState, t *Transcrip
 	cparams := startupParams(su)
 	wantClient := renderParams(cparams)
 	user := cparams["user"]
-	wantServer := renderParams(expectedServerParams(&c.Server, user))
+	wantServer := normSuper(renderParams(expectedServerParams(&c.Server, user)))
 	nmw := len(c.Server.MW)
 	allMW := make([]string, nmw)
 	for i := range allMW {
@@ -180,7 +186,7 @@ func lifecycleOracle(prop string, c *Case, conn int, cs *connState, t *Transcrip
 				if f.client != wantClient {
 					add("client-parameters", fmt.Sprintf("%s callback sees client parameters {%s}, the startup packet carried {%s}", f.where, f.client, wantClient))
 				}
-				if f.server != wantServer {
+				if normSuper(f.server) != wantServer {
 					add("server-parameters", fmt.Sprintf("%s callback sees server parameters {%s}, want {%s}", f.where, f.server, wantServer))
 				}
 				if f.remote != fmt.Sprintf("sim:%d", cs.ID) {
@@ -251,7 +257,8 @@ func startupBlockOracle(prop string, c *Case, conn int, cs *connState, t *Transc
 			add("parameter-status-missing", fmt.Sprintf("ParameterStatus %q is missing", k))
 		case len(vals) > 1:
 			add("parameter-status-duplicate", fmt.Sprintf("ParameterStatus %q sent %d times", k, len(vals)))
-		case vals[0] != v:
+		case vals[0] != v && k != "is_superuser":
+			// (the property names is_superuser but does not fix its value)
 			add("parameter-status-value", fmt.Sprintf("ParameterStatus %q = %q, want %q", k, vals[0], v))
 		}
 	}
